@@ -16,16 +16,43 @@ ASSUMPTIONS = [
 ]
 
 
+# hand-written scenarios: {relative path: content}; '.gitignore' files give the rules, other files are created as given
+SCENARIOS = [
+    {".gitignore": "docs/\n!docs/keep.md\n", "docs/keep.md": "k", "docs/x.md": "x", "a.md": "a"},
+    {".gitignore": "docs/\n", "docs/.gitignore": "!*.md\n", "docs/in.md": "i", "b.md": "b"},
+    {".gitignore": "/out\n!**/*.md\n", "out/o.md": "o", "c.md": "c"},
+    {".gitignore": "tmp*/\n!tmp1/keep.md\n", "tmp1/keep.md": "k", "tmp1/sub/d.md": "d", "e.md": "e"},
+    {".gitignore": "logs/*\n!logs/keep.md\n", "logs/keep.md": "k", "logs/drop.md": "d"},
+    {".gitignore": "*.md\n!docs/\n!docs/*.md\n", "docs/r.md": "r", "top.md": "t"},
+    {"a/.gitignore": "/draft.md\nsub/api.md\n", "a/draft.md": "d", "a/sub/api.md": "s", "a/sub/draft.md": "n", "draft.md": "top", ".gitignore": "# none\n*.tmp\n"},
+    {".gitignore": "*.md\n", "a/.gitignore": "!/keep.md\n!b/*.md\n", "a/keep.md": "k", "a/b/x.md": "x", "a/b/c/y.md": "y", "a/z.md": "z"},
+    {"a/.gitignore": "a/*.md\n", "a/x.md": "x", "a/a/y.md": "y", ".gitignore": "q.md\n"},
+    {".gitignore": "bld/\n", "x/.gitignore": "!bld/\n", "x/bld/in.md": "i", "bld/out.md": "o"},
+]
+
+
+def _scenario_tree(root, files):
+    for rel, content in files.items():
+        p = os.path.join(root, rel)
+        os.makedirs(os.path.dirname(p), exist_ok=True)
+        with open(p, "w") as fh:
+            fh.write(content)
+
+
 def bounded(tier, seed):
     from flowmark.file_resolver import FileResolver, FileResolverConfig
     rnd = random.Random(seed)
     viol, evals, distinct, samples = [], 0, set(), []
     n = 60 if tier == "quick" else 600
-    for i in range(n):
+    for i in range(-len(SCENARIOS), n):
         base = scratch_dir("vf-c18-")
         root = os.path.join(base, "t")
         try:
-            fsgen.make_tree(rnd, root, gitignores=True)
+            if i < 0:
+                os.makedirs(root)
+                _scenario_tree(root, SCENARIOS[i])
+            else:
+                fsgen.make_tree(rnd, root, gitignores=True)
             gi = {os.path.relpath(os.path.join(dp, f), root): open(os.path.join(dp, f)).read()
                   for dp, dn, fn in os.walk(root) for f in fn if f == ".gitignore"}
             vis = [p for p in fsgen.git_visible(root) if p.endswith(".md")]
@@ -48,7 +75,8 @@ def bounded(tier, seed):
         finally:
             shutil.rmtree(base, ignore_errors=True)
     return {"evaluations": evals, "distinct_nontrivial": len(distinct), "violations": viol, "samples": samples,
-            "rule": "seeded trees with .gitignore files (1-3 lines each from an 18-line pool) at any level: the .md files returned by a "
+            "rule": "10 hand-written scenarios (ignored directories with later / nested negations, anchored and multi-segment patterns in "
+                    "nested files, re-included directories) + seeded trees with .gitignore files (1-3 lines each from an 18-line pool) at any level: the .md files returned by a "
                     "traversal (no default excludes) equal the .md files of `git ls-files -co --exclude-standard`; with "
                     "respect_gitignore=False every .md file is returned; distinct = distinct git results",
-            "exhaustive": False, "bound": "%d trees" % n}
+            "exhaustive": False, "bound": "%d trees" % (n + len(SCENARIOS))}
